@@ -53,6 +53,9 @@ def variants(client):
         add("req-dup", "request", list(REQ) + [(b":method", b"GET")])
         add("req-status", "request", list(REQ) + [(b":status", b"200")])
         add("req-prio", "request", list(REQ), priority_weight=7, priority_depends_on=0, priority_exclusive=True)
+        # a block that needs CONTINUATION frames, with and without the five extra bytes of priority fields in the first frame
+        add("req-big", "request", list(REQ) + [(b"x-big", b"Z" * 20000)])
+        add("req-prio-big", "request", list(REQ) + [(b"x-big", b"Z" * 20000)], priority_weight=7)
         add("req-prio-w0", "request", list(REQ), priority_weight=0)
         add("req-prio-self", "request", list(REQ), priority_depends_on="SELF")
         add("trailers", "trailers", [(b"x-t", b"1")], es=True)
@@ -91,7 +94,25 @@ class Spec:
         st.peer_hts = 4096
         st.resize_pending = False
         st.n_resizes = 0         # HEADER_TABLE_SIZE settings received since the last emitted header block (capped at 2)
-        return [("handshaken", st)]
+        out = [("handshaken", st)]
+        if not self.client:
+            # an h2c-upgraded server whose client announced HEADER_TABLE_SIZE=0 in the HTTP2-Settings header (and repeats it
+            # in its first SETTINGS frame): every block the server emits must decode with a table of that size
+            import base64
+            st2 = S()
+            st2.h = H.Solo(False, handshake=False)
+            pairs = [(wire.S_HEADER_TABLE_SIZE, 0)]
+            st2.h.conn.initiate_upgrade_connection(base64.urlsafe_b64encode(wire.settings(pairs).payload))
+            o = st2.h.rx([wire.settings(pairs), wire.settings([], ack=True)])
+            assert o.kind == "ok", o.brief()
+            st2.h.m.upgrade()
+            st2.dead = False
+            st2.peer_hts = 0
+            st2.h.wdec.max_allowed_table_size = 0
+            st2.resize_pending = True
+            st2.n_resizes = 1
+            out.append(("upgraded-hts0", st2))
+        return out
 
     def fingerprint(self, st):
         return fingerprint(st.h.conn, st.h.m.key(), st.h.wdec, st.h.wdec_broken, st.dead, st.peer_hts, st.resize_pending, st.n_resizes)
@@ -109,6 +130,7 @@ class Spec:
                 acts.append("rx:H:%d" % sid)
                 acts.append("push:%d:ok" % sid)
                 acts.append("push:%d:bad" % sid)
+                acts.append("push:%d:big" % sid)        # block that needs CONTINUATION frames (four extra bytes in the first frame)
                 acts.append("push:%d:lowid" % sid)      # valid list, promised id already used (or 0)
                 acts.append("push:%d:oddid" % sid)      # valid list, promised id of the client's parity
         for v in (0, 64, 4096, 8192):
@@ -161,6 +183,8 @@ class Spec:
             parent = int(parts[1])
             promised = h.m.hi_local + 2 if h.m.hi_local else 2
             hdrs = list(REQ) + [fresh("push%d" % parent)]
+            if parts[2] == "big":
+                hdrs = hdrs + [(b"x-big", b"Z" * 20000)]
             if parts[2] == "bad":
                 hdrs = [x for x in hdrs if x[0] != b":scheme"]
             elif parts[2] == "lowid":
@@ -168,7 +192,7 @@ class Spec:
             elif parts[2] == "oddid":
                 promised = 9
             o = h.api("push_stream", parent, promised, hdrs)
-            if parts[2] == "ok":
+            if parts[2] in ("ok", "big"):
                 expect_list = ("push", hdrs)
             out = "push-" + o.kind
         else:
